@@ -546,14 +546,18 @@ def prepare_schema(uni, op):
     key = f"builder:{op['b']}"
 
     def snapshot(builder):
-        return {k: v.to_dict() for k, v in builder.context.definitions.items()}
+        items = list(builder.context.definitions.items())  # atomic w.r.t. the scheduler
+        return {k: v.to_dict() for k, v in items}
+
+    # the builder is created here, in the untraced part: creating it is not the
+    # operation under test and must not race between simulated threads
+    b = uni.codecs.get(key)
+    if b is None:
+        b = make_schema_builder(op["params"])
+        uni.codecs[key] = b
 
     def thunk():
-        b = uni.codecs.get(key)
-        if b is None:
-            b = make_schema_builder(op["params"])
-            uni.codecs[key] = b
-        state = {"builder": b, "before": snapshot(b), "params": op["params"]}
+        state = {"builder": b, "before": snapshot(b), "params": op["params"], "key": key}
         uni.schema_state = state
         if op["what"] == "defs":
             d = b.get_definitions().to_dict()
@@ -570,6 +574,7 @@ def prepare_schema(uni, op):
             state["after"] = snapshot(b)
         sd = s.to_dict()
         state["schema"] = sd
+        uni.__dict__.setdefault("schema_log", {}).setdefault(key, []).append(sd)
         rt = JSONSchema.from_dict(sd).to_dict()
         state["roundtrip"] = rt
         return {"schema": sd, "roundtrip_equal": rt == sd}
